@@ -2,7 +2,8 @@
 (* C03/C06 code -> spec at the grain of ONE REDUCTION: every call of a rule callback of the real LALR parser was recorded
    (rule, the children it was given - snapshotted before the call, with their metas - and what it returned); the
    specification's callback chain (TreeBuilder.tla) applied to the same rule and children must return the same value.
-   case: rules (compiled rules with their options), pp (propagate_positions), reds: [r, kids, res] *)
+   case: rules (compiled rules with their options), pp (propagate_positions), amb (Earley, ambiguity='explicit': the chain
+   with the two ambiguity expanders), reds: [r, kids, res, rid, kid] *)
 EXTENDS TreeBuilder, TraceBase
 VARIABLES tid, k, verdict
 \* ---- L0 of C06 at the same grain: the node a reduction creates spans the tokens its rule matched ---------------------
@@ -33,9 +34,9 @@ Next ==
   /\ LET c == Cases[tid]
          e == c.reds[k + 1]
          rule == c.rules[e.r]
-         want == Callback(rule, e.kids, c.pp)
-         v == IF Len(e.kids) # Len(rule.syms) THEN "callback-got-another-number-of-children-than-the-rule-has-symbols"
-              ELSE IF ~SpanLaw(c, k + 1) THEN "node-meta-is-not-the-span-of-the-tokens-its-rule-matched" \o (IF SpanLawButTokens(c, k + 1) THEN "@token-through-expand1" ELSE "")
+         want == IF c.amb THEN CallbackAmb(rule, e.kids, c.pp) ELSE Callback(rule, e.kids, c.pp)
+         v == IF ~c.amb /\ Len(e.kids) # Len(rule.syms) THEN "callback-got-another-number-of-children-than-the-rule-has-symbols"
+              ELSE IF ~c.amb /\ ~SpanLaw(c, k + 1) THEN "node-meta-is-not-the-span-of-the-tokens-its-rule-matched" \o (IF SpanLawButTokens(c, k + 1) THEN "@token-through-expand1" ELSE "")
               ELSE IF want = e.res THEN "ok"
               ELSE IF want[1] # e.res[1] \/ want[2] # e.res[2] THEN "reduction-builds-another-node"
               ELSE IF want[3] # e.res[3] THEN "reduction-keeps-other-children"
